@@ -1537,7 +1537,20 @@ where
                 relay.then_some(id)
             }
             Ok(None) => {
-                // FIXME: Still mark as relayed by this peer.
+                // If this is the announcement we have stored, still mark it as relayed by this
+                // peer, so that we don't relay it back to them.
+                match self.db.gossip().stored(announcer, announcement) {
+                    Ok(Some(id)) => {
+                        let relayers = self.relayed_by.entry(id).or_default();
+                        if !relayers.contains(relayer) {
+                            relayers.push(*relayer);
+                        }
+                    }
+                    Ok(None) => {}
+                    Err(e) => {
+                        error!(target: "service", "Error looking up gossip entry from {announcer}: {e}");
+                    }
+                }
                 // FIXME: Refs announcements should not be delayed, since they are only sent
                 // to subscribers.
                 debug!(target: "service", "Ignoring stale announcement from {announcer} (t={timestamp})");
